@@ -285,43 +285,7 @@ def seipdv1(ctx, P):
         late = [i for i in false_exits if i in after]
         ctx.check(P + ':v1:fill_data:no-constant-not-last-after-read', 'R-dom', 'fill_data never returns a constant "not the last read" after it has read from the source (exhaustion always leads to finalize_data)',
                   bool(reads) and not late, function=b.path, site=site(b, late[0]) if late else None, count=len(false_exits))
-        # A5 hold-back
-        c = ctx.f.consts.get('crypto::sym::decryptor::MDC_LEN')
-        ctx.check(P + ':v1:mdc-len-22', 'R-table', 'MDC_LEN == 22 (tag, length, SHA-1)', c is not None and c['v'] == 22, table=c and c['v'])
-        upd = call_blocks(b, r'(Digest|Update)::update$')
-        dg = [i for i, op, _ in direct_cmp_switches(b, is_call_to(r'Buf::remaining$|BytesMut::len$'), lambda v: v == 22)]
-        can = b.can_reach(set(upd))
-        dg = [i for i in dg if any(j not in can for j, _ in b.succ(i))]
-        ok, wit = must_pass(b, upd, dg)
-        ctx.check(P + ':v1:fill_data:holdback-guard', 'R-dom', 'hashing/release in fill_data is dominated by the direct remaining() < MDC_LEN(22) rejection',
-                  ok and bool(dg) and bool(upd), function=b.path, guards=[site(b, g) for g in dg], sinks=[site(b, u) for u in upd],
-                  witness=fmt_path(b, wit) if wit else None)
-        # ... and that rejection is EXACT: 21 held-back octets are refused, 22 (an MDC with no plaintext in front of it in this
-        # fill - a message whose protected data ends exactly at a buffer refill) are accepted.  A stricter test refuses valid messages.
-        exact = []
-        for g, op, side in direct_cmp_switches(b, is_call_to(r'Buf::remaining$|BytesMut::len$'), lambda v: v == 22):
-            if g not in dg:
-                continue
-            tt = b.blocks[g]['t']
-            def taken(x, op=op, side=side, tt=tt, g=g):
-                a, c = (x, 22) if side == 0 else (22, x)
-                truth = {'Lt': a < c, 'Le': a <= c, 'Gt': a > c, 'Ge': a >= c, 'Eq': a == c, 'Ne': a != c}[op]
-                # condition local may be negated before the switch
-                neg = False
-                for s_ in reversed(b.blocks[g]['s']):
-                    if s_['d']['l'] == tt['o'].get('l') and s_['r']['k'] == 'un' and s_['r']['op'] == 'Not':
-                        neg = True
-                    break
-                val = int(truth != neg)
-                for v, bb in tt['targets']:
-                    if v == val:
-                        return bb
-                return tt['else']
-            exact.append((taken(21) not in can, taken(22) in can))
-        good = bool(exact) and any(r21 for r21, a22 in exact) and all(a22 for r21, a22 in exact)
-        ctx.check(P + ':v1:fill_data:holdback-guard-exact', 'R-table', 'the hold-back rejection refuses 21 buffered octets and no comparison with MDC_LEN refuses 22 (exactly remaining() < MDC_LEN)',
-                  good, function=b.path, table=[list(x) for x in exact],
-                  missing=None if good else 'the comparison of remaining() with MDC_LEN is not `< 22`: a valid message whose last refill holds only the MDC is refused (or a short tail accepted)')
+        upd, dg, can = holdback(ctx, P, b)
         # the hashed/released end is len - MDC_LEN
         subs = b.stmts(lambda s: s['r']['k'] == 'bin' and s['r']['op'] in ('Sub', 'SubWithOverflow') and any('k' in o and o['k'].get('v') == 22 for o in s['r']['o']))
         ctx.check(P + ':v1:fill_data:end-is-len-minus-22', 'origin', 'the release bound in fill_data is computed as len - MDC_LEN',
@@ -343,6 +307,49 @@ def seipdv1(ctx, P):
             ctx.check(P + ':v1:read-bounded:%s' % r['name'], 'origin', 'in the Data state %s hands out buffer bytes only up to data_available' % r['name'],
                       not bad, function=b.path, missing=bad)
     ctx.floor(P + ':v1:read-impls:floor', 'Read/BufRead impls of StreamDecryptorInner', n, 3)
+
+
+def holdback(ctx, P, b):
+    """The hold-back of the last MDC_LEN octets: hashing / release in fill_data is dominated by the exact `remaining() < MDC_LEN`
+    rejection in every protected arm (finalize_data then computes `len - MDC_LEN` and splits there: shared with C04)."""
+    # A5 hold-back
+    c = ctx.f.consts.get('crypto::sym::decryptor::MDC_LEN')
+    ctx.check(P + ':v1:mdc-len-22', 'R-table', 'MDC_LEN == 22 (tag, length, SHA-1)', c is not None and c['v'] == 22, table=c and c['v'])
+    upd = call_blocks(b, r'(Digest|Update)::update$')
+    dg = [i for i, op, _ in direct_cmp_switches(b, is_call_to(r'Buf::remaining$|BytesMut::len$'), lambda v: v == 22)]
+    can = b.can_reach(set(upd))
+    dg = [i for i in dg if any(j not in can for j, _ in b.succ(i))]
+    ok, wit = must_pass(b, upd, dg)
+    ctx.check(P + ':v1:fill_data:holdback-guard', 'R-dom', 'hashing/release in fill_data is dominated by the direct remaining() < MDC_LEN(22) rejection',
+              ok and bool(dg) and bool(upd), function=b.path, guards=[site(b, g) for g in dg], sinks=[site(b, u) for u in upd],
+              witness=fmt_path(b, wit) if wit else None)
+    # ... and that rejection is EXACT: 21 held-back octets are refused, 22 (an MDC with no plaintext in front of it in this
+    # fill - a message whose protected data ends exactly at a buffer refill) are accepted.  A stricter test refuses valid messages.
+    exact = []
+    for g, op, side in direct_cmp_switches(b, is_call_to(r'Buf::remaining$|BytesMut::len$'), lambda v: v == 22):
+        if g not in dg:
+            continue
+        tt = b.blocks[g]['t']
+        def taken(x, op=op, side=side, tt=tt, g=g):
+            a, c = (x, 22) if side == 0 else (22, x)
+            truth = {'Lt': a < c, 'Le': a <= c, 'Gt': a > c, 'Ge': a >= c, 'Eq': a == c, 'Ne': a != c}[op]
+            # condition local may be negated before the switch
+            neg = False
+            for s_ in reversed(b.blocks[g]['s']):
+                if s_['d']['l'] == tt['o'].get('l') and s_['r']['k'] == 'un' and s_['r']['op'] == 'Not':
+                    neg = True
+                break
+            val = int(truth != neg)
+            for v, bb in tt['targets']:
+                if v == val:
+                    return bb
+            return tt['else']
+        exact.append((taken(21) not in can, taken(22) in can))
+    good = bool(exact) and any(r21 for r21, a22 in exact) and all(a22 for r21, a22 in exact)
+    ctx.check(P + ':v1:fill_data:holdback-guard-exact', 'R-table', 'the hold-back rejection refuses 21 buffered octets and no comparison with MDC_LEN refuses 22 (exactly remaining() < MDC_LEN)',
+              good, function=b.path, table=[list(x) for x in exact],
+              missing=None if good else 'the comparison of remaining() with MDC_LEN is not `< 22`: a valid message whose last refill holds only the MDC is refused (or a short tail accepted)')
+    return upd, dg, can
 
 
 def is_last_read_switch(b, j):
